@@ -76,6 +76,11 @@ CLAIMED = {
          "Quick N=4 (168 k strings x 2 start positions x 3 lexers), thorough N=5; plus every MC_E1 depth-1 (thorough: depth-2) expression in all layouts and every MC_C02 file for range fidelity of names, labels, braces, operators, call parts, traversal steps and expression re-parse.",
          "Position checks apply where token boundaries are grapheme-cluster boundaries (as the statement says); UAX #29 segmentation is the dependency textseg.",
          "DESIGN.md §4 C14"),
+ "C15": ("spec/MC_C15.tla (HclDamage over MC_E1)",
+         "TLC enumerates base programs x damage operations (insert/replace/delete/truncate with a 47-token damage alphabet); every damaged input is fed to all 9 parsing entry points, twice, under a watchdog; results, diagnostics and follow-up schema application/evaluation are checked",
+         "Quick: 146 base ASTs covering every production x 6 positions x 4 damage kinds x 47 tokens (84 k inputs x 3 embeddings); thorough: all 7.7 k depth-1 ASTs x 12 positions (8.9 M). No panic, no hang, deterministic, non-nil result or error diagnostics, diagnostics with severity, summary and in-bounds ranges; partial bodies accept schemas without panic.",
+         "Single damages on grammar-derived inputs (MaxK=1); the peeker protocol trace validation (Peeker.tla) is planned on top of this.",
+         "DESIGN.md §4 C15"),
  "C18": ("spec/DynBlock.tla + spec/HclDec.tla (MC_C18)",
          "TLC enumerates bodies mixing static and dynamic blocks with the specification's written-out static body (DynBlock!WrittenOut) and decoded value; the real dynblock.Expand + hcldec.Decode is compared with decoding the written-out body, with the model value, under unknown for_each, and in the scope pruned to the reported variables",
          "Bodies of <= 2 items (quick) / up to 3 (thorough) from ~90 dynamic-block templates (all iterable kinds incl. empty, null, non-iterable; default/custom iterators; labels from the iterator; nested static and dynamic content with outer-iterator references and shadowing) x 8 specs (list, tuple, set, single block, map, object, nested tuple-in-tuple, min/max).",
@@ -133,7 +138,7 @@ def main():
             {"name": "HclLexStr", "path": "spec/HclLexStr.tla", "serves_properties": ["C11"], "kind_free_text": "TLA+ model of quoted string literals over character classes (Escape/Unescape law) with value generator MC_C11"},
             {"name": "HclStruct", "path": "spec/HclStruct.tla", "serves_properties": ["C02", "C09", "C10"], "kind_free_text": "TLA+ layout machine writing native-syntax files with their abstract tree; TLC dump replayed into hclsyntax.ParseConfig"},
             {"name": "HclBody", "path": "spec/HclBody.tla", "serves_properties": ["C04"], "kind_free_text": "TLA+ machine of schema-driven body processing (PartialContent/Content with hidden sets); TLC dump replayed on four hcl.Body implementations"},
-            {"name": "E1 HclValues+HclExpr+MC_E1", "path": "spec/HclExpr.tla", "serves_properties": ["C01", "C05", "C06", "C07", "C09", "C10", "C19", "C20"], "kind_free_text": "TLA+ denotational semantics of the expression/template language with a production-per-action AST generator; TLC dump streamed to Go replayers (harness/e1, c01, c05, c06, c07, c19)"},
+            {"name": "E1 HclValues+HclExpr+MC_E1", "path": "spec/HclExpr.tla", "serves_properties": ["C01", "C05", "C06", "C07", "C09", "C10", "C13", "C14", "C15", "C19", "C20"], "kind_free_text": "TLA+ denotational semantics of the expression/template language with a production-per-action AST generator; TLC dump streamed to Go replayers (harness/e1, c01, c05, c06, c07, c19)"},
         ],
         "checks": checks,
         "not_applicable": na,
